@@ -61,5 +61,5 @@ func WriteLenData(w io.Writer, data []byte) (int, error) {
 	if err != nil {
 		return 0, err
 	}
-	return n + 4, nil
+	return n + 2, nil
 }
